@@ -213,6 +213,21 @@ def check_case(case):
         gen_crop = xyz.Crop(name=NAME, parent_dir=d)
     try:
         try:
+            # (scripts for another crop were generated in this process just
+            # before - for a fresh crop, then for chosen batches, or the other
+            # way round: every script is built from its own request only)
+            pre = core.pick([sched, mode, B, have, sel, "prelude"], 3)
+            if pre:
+                dp = core.fresh_dir("c16pre")
+                cp = xyz.Crop(fn=w.f, name="pre", parent_dir=dp,
+                              num_batches=3)
+                cp.sow_combos({"a": [1, 2, 3]}, verbosity=0)
+                for pm in ("array", "single"):
+                    reqs = [None, [3, 1]] if pre == 1 else [[3, 1], None]
+                    for rq in reqs:
+                        cp.gen_cluster_script(
+                            sched, rq, mode=pm, launcher=stub_launcher(),
+                            output_directory=out, conda_env=False)
             script = gen_crop.gen_cluster_script(
                 sched, bids, mode=mode, launcher=stub_launcher(),
                 output_directory=out, conda_env=False, **opts)
